@@ -5,7 +5,12 @@ prop("C35",
                "NeoFS.IRAuth.keyPosition_neg_iff", "NeoFS.IRAuth.keyPosition_lt_length", "NeoFS.IRAuth.isAlphabet_iff_member",
                "NeoFS.IRAuth.vote_requires_alphabet", "NeoFS.IRAuth.vote_requires_membership", "NeoFS.IRAuth.vote_unfixed_counterexample",
                "NeoFS.IRAuth.epoch_requires_alphabet", "NeoFS.IRAuth.epoch_unfixed_counterexample",
-               "NeoFS.IRAuth.tick_requires_alphabet", "NeoFS.IRAuth.emit_requires_alphabet"],
+               "NeoFS.IRAuth.tick_requires_alphabet", "NeoFS.IRAuth.emit_requires_alphabet",
+               "NeoFS.IRIndexer.keyPosition_getElem", "NeoFS.IRIndexer.run_inv", "NeoFS.IRIndexer.failed_lookup_marks",
+               "NeoFS.IRIndexer.reset_marks", "NeoFS.IRIndexer.success_records",
+               "NeoFS.IRIndexer.served_from_last_successful_lookup", "NeoFS.IRIndexer.dirty_forces_lookup",
+               "NeoFS.IRIndexer.guard_pass_requires_position", "NeoFS.IRIndexer.acts_only_on_last_successful_lookup",
+               "NeoFS.IRIndexer.stamp_first_counterexample"],
      engines=[dict(name="ir", quick=1, thorough=1)],
      claim="Programs: harness/extract (go/packages + go/types over the working tree) regenerates on every run the control skeleton of EVERY "
            "handle*/Handle*/process*/Process* method of the eight inner ring processors plus Server.voteForFSChainValidator (startup vote), "
@@ -22,7 +27,16 @@ prop("C35",
            "fe2a36a: non-alphabet node sent container placement notary scripts on NewEpoch); their pre-repair shapes are kept as decide-checked "
            "counterexamples. Dynamic tie: the real innerRingIndexer/Server getters and startup vote, the real netmap processor (NewEpoch "
            "notification handler, epoch tick), the real alphabet processor (emission) and the real container processor (notary requests) run "
-           "over connection-less morph clients whose chain calls are intercepted and counted, compared line by line with Model/IRAuth.lean.",
+           "over connection-less morph clients whose chain calls are intercepted and counted, compared line by line with Model/IRAuth.lean. "
+           "The indexer's cache: Model/IRIndexer.lean follows innerRingIndexer.update/reset with the cache timeout, the zero-valued initial "
+           "indexes, the half-updated indexes after a failed Committee lookup and a clock; for EVERY node life (process starts, key-list changes, "
+           "failing/recovering lookups, waits, RPC reconnections, guard evaluations) whatever a guard evaluation is answered with comes from "
+           "the most recent complete successful lookup (no lookup failed and no reconnection since; the key is at exactly that position of the "
+           "committee that lookup read; the lookup is younger than the timeout or was made by this evaluation), and while a lookup has failed "
+           "every evaluation goes to the chain; the variant that stamps the cache before the lookups is refuted by a decide-checked "
+           "counterexample. Tie: the REAL indexer with a non-zero timeout behind the real Server getters, startup vote, emission and epoch "
+           "tick in generated node lives (ops ix*), elapsed time injected by ageing the cache stamp (tagged export), compared line by line "
+           "(values and the number of RPC lookups each call made) and checked by an oracle that keeps its own record of what the fetchers returned.",
      note="Proved: checker soundness; checker = true on every regenerated entry point; the index arithmetic. Trusted: the translator "
           "(irhandlers.go: statement abstraction, the callee classification, the list of six sending primitives, the entry point naming rule). "
           "Not followed by the translator: calls through function-typed fields (np.handleAlphabetSync, np.handleNotaryDeposit: their targets "
@@ -37,7 +51,12 @@ prop("C35",
      rule="exhaustive small tables: 100 (iridx,aidx,fetch-failure) index cases x 4 contract counts for the vote with random validator counts "
           "and prior votes; 16 new-epoch cases (alphabet x map changed x 0..3 containers) + 2 ticks; 189 emission cases (index -1..5 x "
           "contracts 0/1/4 x nodes 0/1/3 x emission 0/2/9); 150 (quick) / 2000 (thorough) container notary requests in alphabet and "
-          "non-alphabet state; non-trivial = at least one chain call recorded or a co-signed request; distinct by op",
+          "non-alphabet state; non-trivial = at least one chain call recorded or a co-signed request; distinct by op; "
+          "70 (quick) / 1500 (thorough) node lives of 10-30 ops over the caching indexer (timeouts 0/2/5/10, key lists of 0-6 keys from 6, "
+          "0-2 failing lookups of either kind, waits around the timeout, reconnections followed by failing lookups) + 9 hand-written lives; "
+          "non-trivial there = an answer served from the cache or an evaluation whose lookup failed, distinct by (op, observation, state)",
      trusted=["harness/extract/irhandlers.go (skeleton translator and effect-set fixpoint) — regenerated facts are only as good as its abstraction",
               "verif-tagged interception of morph client calls records what would be sent to the chain"],
-     assumptions=["alphabet status is constant during one run of a handler", "function-typed callbacks are entry points of their own"])
+     assumptions=["alphabet status is constant during one run of a handler",
+                  "the indexer decides freshness from its lastAccess stamp and the wall clock only (elapsed time is injected by moving the stamp back); "
+                  "calls of one indexer are serialised by its lock (no concurrent schedule is explored)", "function-typed callbacks are entry points of their own"])
